@@ -425,6 +425,139 @@ def spy_leg():
     return bad, n
 
 
+def fault_history_leg():
+    """Extractions in which a hook / repr fails (contained in Stack.error) are observations too: after
+    one, (b) a second extraction of the unchanged target must equal the extraction of a twin target that
+    never saw a failing extraction, also once the fault is gone, and (d) nothing of the target may be
+    retained once results and target are dropped.  Fault sites: a user elaborate_context hook, a user
+    unwrap_context hook, repr() of an ExitStack entry (called by the contextlib glue), a user
+    elaborate_frame hook; manager placements: plain `with`, ExitStack entry, inside a @contextmanager
+    generator; the fault is on for the k-th extraction of a history, off for the others."""
+    import contextlib
+    import gc
+    import weakref
+    import stackscope
+
+    bad = []
+    n = 0
+    flag = {"site": None}
+
+    class Boom(Exception):
+        pass
+
+    class Mgr:
+        def __init__(self, tag):
+            self.tag = tag
+
+        def __enter__(self):
+            return self
+
+        def __exit__(self, *exc):
+            return False
+
+        def __repr__(self):
+            if flag["site"] == "repr":
+                raise Boom("repr")
+            return "<Mgr %s>" % self.tag
+
+    class Wrap(Mgr):
+        def __init__(self, tag, inner):
+            Mgr.__init__(self, tag)
+            self.inner = inner
+
+    @stackscope.elaborate_context.register(Mgr)
+    def _elab(mgr, context):
+        if flag["site"] == "elaborate_context":
+            raise Boom("elaborate_context")
+        context.description = "mgr:" + mgr.tag
+
+    @stackscope.unwrap_context.register(Wrap)
+    def _unwrap(mgr, context):
+        if flag["site"] == "unwrap_context":
+            raise Boom("unwrap_context")
+        return mgr.inner
+
+    @contextlib.contextmanager
+    def cm(tag):
+        with Mgr(tag + ".in"):
+            yield tag
+
+    def target(shape, made):
+        def mk(cls, *a):
+            m = cls(*a)
+            made.append(weakref.ref(m))
+            return m
+        if shape == "plain":
+            with mk(Mgr, "a"), mk(Wrap, "w", mk(Mgr, "wi")):
+                yield 1
+        elif shape == "exitstack":
+            with contextlib.ExitStack() as es:
+                made.append(weakref.ref(es))
+                es.enter_context(mk(Mgr, "e1"))
+                es.enter_context(mk(Wrap, "ew", mk(Mgr, "ewi")))
+                es.enter_context(cm("ec"))
+                es.push(mk(Mgr, "e2"))
+                yield 1
+        else:
+            with cm("c1") as x, mk(Wrap, "w2", mk(Mgr, "w2i")):
+                yield x
+
+    def ctx_view(cx, depth=0):
+        inner = getattr(cx, "inner_stack", None)
+        return (type(cx.obj).__name__, getattr(cx.obj, "tag", None), bool(cx.is_exiting), bool(cx.hide), cx.varname,
+                cx.description if cx.description is None or "0x" not in cx.description else "<addr>",
+                tuple(ctx_view(c, depth + 1) for c in (cx.children or ())) if depth < 5 else (),
+                None if inner is None else stack_view(inner, depth + 1))
+
+    def stack_view(st, depth=0):
+        return (tuple((f.funcname, f.lineno, bool(f.hide), tuple(ctx_view(c, depth) for c in f.contexts)) for f in st.frames),
+                type(st.error).__name__ if st.error is not None else None)
+
+    hist_lens = (2, 3)
+    for shape in ("plain", "exitstack", "cm"):
+        for site in ("elaborate_context", "unwrap_context", "repr"):
+            for hl in hist_lens:
+                for k in range(hl):
+                    n += 1
+                    made, tmade = [], []
+                    g, twin = target(shape, made), target(shape, tmade)
+                    next(g)
+                    next(twin)
+                    flag["site"] = None
+                    want = stack_view(stackscope.extract(twin))
+                    views = []
+                    try:
+                        for j in range(hl):
+                            flag["site"] = site if j == k else None
+                            views.append(stack_view(stackscope.extract(g)))
+                    except BaseException as ex:  # noqa: BLE001
+                        bad.append({"what": "extract raised %r in a history with a failing %s" % (ex, site),
+                                    "input": {"leg": "fault_history", "shape": shape, "site": site, "history": hl, "fault_at": k}})
+                        flag["site"] = None
+                        continue
+                    flag["site"] = None
+                    inp = {"leg": "fault_history", "shape": shape, "site": site, "history": hl, "fault_at": k}
+                    for j, v in enumerate(views):
+                        if j != k and v != want:
+                            bad.append({"what": "extraction %d of an unchanged target (a %s fault was contained in extraction %d) differs "
+                                                "from the extraction of a twin target that never saw a failing extraction: %r vs %r"
+                                                % (j, site, k, v, want), "input": inp})
+                            break
+                    if site != "repr" and views[k][1] is None and views[k] != want:
+                        bad.append({"what": "the failing extraction reported no error yet differs from the fault-free one", "input": inp})
+                    del views, want
+                    g.close()
+                    twin.close()
+                    del g, twin
+                    gc.collect()
+                    alive = [i for i, w in enumerate(made) if w() is not None]
+                    talive = [i for i, w in enumerate(tmade) if w() is not None]
+                    if alive != talive:
+                        bad.append({"what": "after a contained %s fault, results and target dropped, gc.collect(): objects %r of the target "
+                                            "are still alive (twin without failing extraction: %r)" % (site, alive, talive), "input": inp})
+    return bad, n
+
+
 def extra_legs(tier, seed):
     from . import progs
     res = progs.leg_purity(tier, seed)
@@ -451,4 +584,8 @@ def extra_legs(tier, seed):
     res["violations"].extend(bad)
     res["evaluations"] += n
     res["info"]["spy_leaf_twin_runs"] = n
+    bad, n = fault_history_leg()
+    res["violations"].extend(bad)
+    res["evaluations"] += n
+    res["info"]["fault_history_runs"] = n
     return res
